@@ -1074,8 +1074,13 @@ def make_segment(data, mode, encoding=None):
     elif segment_mode == consts.MODE_HANZI:
         # GBT 18284-2000 -- 6.4.5 Hanzi mode (page 18)
         # Note: len(segment.data)! segment.data_length = len(segment.data) / 2!!
+        if segment_length % 2:
+            raise ValueError(f'Invalid Hanzi bytes (odd length): {segment_data!r}')
         for i in range(0, segment_length, 2):
             code = (segment_data[i] << 8) | segment_data[i + 1]
+            if not 0xa1 <= segment_data[i + 1] <= 0xfe:
+                # Second byte of a GB2312 character is in the range 0xa1 .. 0xfe
+                raise ValueError(f'Invalid Hanzi bytes: {code}')
             if 0xa1a1 <= code <= 0xaafe:
                 # For characters with GB2312 values from A1A1HEX to AAFEHEX:
                 # a) Subtract A1A1HEX from GB2312 value;
@@ -1092,6 +1097,8 @@ def make_segment(data, mode, encoding=None):
             append_bits(((diff >> 8) * 0x60) + (diff & 0xff), 13)
     else:
         # ISO/IEC 18004:2015(E) -- 7.4.6 Kanji mode (page 29)
+        if segment_length and not is_kanji(segment_data):
+            raise ValueError(f'Invalid Kanji bytes: {segment_data!r}')
         for i in range(0, segment_length, 2):
             code = (segment_data[i] << 8) | segment_data[i + 1]
             if 0x8140 <= code <= 0x9ffc:
